@@ -17,7 +17,8 @@ def rand_name(rng):
 def rand_attrs(rng, version, pool):
     ats = []
     if rng.random() < 0.8:
-        ats.append(Attr("DW_AT_name", rng.choice(["DW_FORM_string", "DW_FORM_strp"]), rand_name(rng)))
+        sforms = ["DW_FORM_string", "DW_FORM_strp"] * 2 + (["DW_FORM_strx1", "DW_FORM_strx2", "DW_FORM_strx3", "DW_FORM_strx4", "DW_FORM_strx", "DW_FORM_line_strp"] if version >= 5 else [])
+        ats.append(Attr("DW_AT_name", rng.choice(sforms), rand_name(rng)))
     if rng.random() < 0.3:
         ats.append(Attr("DW_AT_decl_line", rng.choice(["DW_FORM_data1", "DW_FORM_data2", "DW_FORM_udata"]), rng.randint(0, 200)))
     if rng.random() < 0.2:
@@ -71,6 +72,9 @@ def random_forest(rng, imports=True, links=True, max_units=4):
     if nparts:
         for i, u in enumerate(units):
             cands = [j for j in range(max(i + 1, nunits), nunits + nparts)]
+            if rng.random() < 0.25:
+                # DW_AT_import may also lead to an ordinary compile unit (DWARF 5, 3.2.5)
+                cands = [j for j in range(i + 1, nunits + nparts)]
             if not cands:
                 continue
             hosts = [u.root] + [d for d in pools[i] if d.flag or not d.children]
@@ -215,6 +219,10 @@ def shaped_forests():
     # empty units between and after real ones, in several versions
     out.append(("empty-units", Forest([cu(b"a", [var(b"av")]), Unit(None, 4), cu(b"b", [var(b"bv")], 5), Unit(None, 5), Unit(None, 2), cu(b"c", [], 3), Unit(None, 3)])))
     out.append(("only-empty", Forest([Unit(None, 4), cu(b"z", [var(b"zv")])])))
+    # an import that leads to a compile unit (LTO-like), next to one that leads to a partial unit
+    ic_b = cu(b"icb", [var(b"b1"), Die("DW_TAG_namespace", [Attr("DW_AT_name", "DW_FORM_string", b"bns")], [var(b"b2")])])
+    ic_p = cu(b"icp", [var(b"p1")], 4, True)
+    out.append(("import-cu", Forest([cu(b"ica", [var(b"a1"), imp(ic_b), var(b"a2"), imp(ic_p)]), ic_b, ic_p])))
     # units of every kind: only partial units are left out of the cooked view
     def ku(tag, name, kids):
         return Unit(Die(tag, [Attr("DW_AT_name", "DW_FORM_string", name)], kids, flag=True), 5)
